@@ -3,6 +3,7 @@ package main
 import (
 	"fmt"
 	"go/types"
+	"regexp"
 	"sort"
 	"strings"
 )
@@ -203,6 +204,23 @@ func (s *Sorts) sortOf(t types.Type) string {
 		return "Iface"
 	}
 	return "Iface"
+}
+
+// ensureOption declares the monomorphic option type over an element sort and
+// returns the mangled element name used in its constructor names
+// (Opt_X = none_X | some_X(val_X)).
+func (s *Sorts) ensureOption(el string) string {
+	m := mangle(el)
+	s.addDecl("Opt_"+m, fmt.Sprintf("(declare-datatypes ((Opt_%s 0)) (((none_%s) (some_%s (val_%s %s)))))", m, m, m, m, el))
+	return m
+}
+
+var optionSortRe = regexp.MustCompile(`\(Option ([A-Za-z0-9_]+)\)`)
+var optNameRe = regexp.MustCompile(`\b(?:Opt|none|some|val)_((?:T_|O_)[A-Za-z0-9_]+|Str|Int|Bool)\b`)
+
+// monoOptions rewrites "(Option X)" to the monomorphic sort name.
+func monoOptions(text string) string {
+	return optionSortRe.ReplaceAllString(text, "Opt_$1")
 }
 
 func (s *Sorts) addDecl(name, text string) {
